@@ -16,7 +16,7 @@ TEX = "timeline.TimelineTex"
 class Pipe:
     """One symbolic run of Timeline.compute() for `n` items in one configuration."""
 
-    def __init__(self, ctx, backend, direction, n=2, show_border=False, show_ticks=True, tick_cross=False, chain=False, textless=()):
+    def __init__(self, ctx, backend, direction, n=2, show_border=False, show_ticks=True, tick_cross=False, chain=False, textless=(), init=False):
         P = ctx.P
         self.ctx, self.P = ctx, P
         self.backend = backend
@@ -70,6 +70,26 @@ class Pipe:
             items.append(it)
         self.items = items
         st.heap[("self", "items")] = Seq("list", items)
+        if init:
+            # the part of Timeline.__init__ that follows the parsing of the items (levelling, rotation, ...), run on items
+            # whose size is the datum's own: width iw_i as supplied, one common height IH (Item gives every datum with an
+            # explicit width the same constant height, C07.THICK)
+            for it in items:
+                st.heap[(it.text, "height")] = Num.atom("IH")
+            fi = P.func("timeline.Timeline.__init__")
+            body = list(fi.node.body)
+            k0 = None
+            for i_, stn in enumerate(body):
+                if isinstance(stn, ast.Assign) and any(isinstance(t, ast.Attribute) and t.attr == "items" for t in stn.targets):
+                    k0 = i_
+            if k0 is None:
+                raise Undecided("Timeline.__init__ does not assign self.items")
+            sti = State(Env({fi.params[0]: s}, ev.module_env("timeline"), "timeline", fi), st.heap)
+            sti.events = st.events
+            self.in_init = True
+            ev.block(body[k0 + 1:], sti, [])
+            self.in_init = False
+            st.heap = sti.heap
         f = P.func("timeline.Timeline.compute")
         r = ev.call_closure(Closure(f, None, selfv=s), [], {}, st)
         self.compute_result = r
@@ -83,6 +103,8 @@ class Pipe:
 
     # hooks ------------------------------------------------------------------------
     def hook(self, fv, args, kwargs, node, st):
+        if getattr(self, "in_init", False) and isinstance(fv, Closure) and fv.func.qual == "timeline.Timeline.init_axis":
+            return NONE  # the axis set-up is judged by C07.AXIS
         if isinstance(fv, ClassRef) and fv.cls.qual == "force.Force":
             self.log.append(("Force", [key(a) for a in args]))
             return Opaque("FORCE", cls=fv.cls, kind="obj")
